@@ -184,28 +184,92 @@ def _has_free_var(e):
     return any(_has_free_var(c) for c in e.children())
 
 
-def pow2_axioms(terms) -> List[z3.BoolRef]:
-    """Ground instances for every pow2(t) application occurring in `terms` (and for t-1, t+1 neighbours that occur)."""
-    apps = set()
+# ---- fast raw traversal (bypasses the z3py wrapper objects; ~10x faster than ExprRef.children())
+import ctypes
+from z3 import z3core as _zc
+class _Raw:
+    """raw ctypes entry points (the generated wrappers add an error check per call, which dominates traversal time)"""
 
-    def walk(e, seen):
-        if e.get_id() in seen:
-            return
-        seen.add(e.get_id())
-        if z3.is_app(e):
-            if e.decl().name() == "pow2" and e.num_args() == 1 and not _has_free_var(e.arg(0)):
-                apps.add(e)
-            for c in e.children():
-                walk(c, seen)
-        elif z3.is_quantifier(e):
-            walk(e.body(), seen)
+    def __getattr__(self, name):
+        f = getattr(_zc, name).__defaults__[0].f
+        setattr(self, name, f)
+        return f
 
+
+_lib = _Raw()
+_ctx = z3.main_ctx().ref()
+Z3_APP_AST, Z3_QUANTIFIER_AST, Z3_VAR_AST, Z3_NUMERAL_AST = 1, 3, 2, 0
+_sym_cache = {}
+
+
+def _decl_name_raw(d):
+    key = _lib.Z3_get_ast_id(_ctx, _lib.Z3_func_decl_to_ast(_ctx, d))
+    r = _sym_cache.get(key)
+    if r is None:
+        sym = _lib.Z3_get_decl_name(_ctx, d)
+        if _lib.Z3_get_symbol_kind(_ctx, sym) == 0:
+            r = "k!" + str(_lib.Z3_get_symbol_int(_ctx, sym))
+        else:
+            r = _zc.Z3_get_symbol_string(_ctx, sym)
+        _sym_cache[key] = r
+    return r
+
+
+def raw_find(f, names, skip_quant=False):
+    """ExprRefs of all applications in f whose declaration name is in `names`."""
+    out = {}
     seen = set()
+    stack = [f.as_ast()]
+    lib, ctx = _lib, _ctx
+    while stack:
+        a = stack.pop()
+        i = lib.Z3_get_ast_id(ctx, a)
+        if i in seen:
+            continue
+        seen.add(i)
+        k = lib.Z3_get_ast_kind(ctx, a)
+        if k == Z3_APP_AST:
+            app = lib.Z3_to_app(ctx, a)
+            n = lib.Z3_get_app_num_args(ctx, app)
+            if n:
+                d = lib.Z3_get_app_decl(ctx, app)
+                if _decl_name_raw(d) in names:
+                    out[i] = a
+                for j in range(n):
+                    stack.append(lib.Z3_get_app_arg(ctx, app, j))
+        elif k == Z3_QUANTIFIER_AST and not skip_quant:
+            stack.append(lib.Z3_get_quantifier_body(ctx, a))
+    return [z3.z3._to_expr_ref(a, z3.main_ctx()) for a in out.values()]
+
+
+_p2cache = {}
+
+
+def _pow2_apps(f):
+    """ground pow2 applications in formula f (memoised per formula; z3 hash-conses, so ids are stable while f is alive)"""
+    i = f.get_id()
+    r = _p2cache.get(i)
+    if r is not None:
+        return r[0]
+    apps = {}
+
+    for e in raw_find(f, ("pow2",)):
+        if e.num_args() == 1 and not _has_free_var(e.arg(0)):
+            apps[e.get_id()] = e
+    res = list(apps.values())
+    _p2cache[i] = (res, f)
+    return res
+
+
+def pow2_axioms(terms) -> List[z3.BoolRef]:
+    """Ground instances of the defining facts of pow2 for every application pow2(t) occurring in `terms`."""
+    apps = {}
     for t in terms:
-        walk(t, seen)
+        for a in _pow2_apps(t):
+            apps[a.get_id()] = a
     out = []
-    args = [a.arg(0) for a in apps]
-    for a in args:
+    for app in apps.values():
+        a = app.arg(0)
         out.append(z3.Implies(a >= 0, pow2(a) >= 1))
         out.append(z3.Implies(a >= 1, pow2(a) == 2 * pow2(a - 1)))
         out.append(z3.Implies(a >= 0, pow2(a + 1) == 2 * pow2(a)))
